@@ -73,27 +73,44 @@ def build_coq(targets=None, timeout=2400):
         return rc, out
 
 
-def hygiene():
-    """No Admitted/admit/Axiom/Parameter/... anywhere in the development (comments are
-    stripped first).  Section Variables/Hypotheses are allowed only inside a Section."""
+def deps_of(files):
+    """Transitive closure of `From VQ/VQP Require Import ...` over coq/theories and coq/props."""
+    seen = []
+    todo = list(files)
+    while todo:
+        f = todo.pop()
+        if f in seen or not os.path.exists(os.path.join(COQ, f)):
+            continue
+        seen.append(f)
+        src = strip_comments(open(os.path.join(COQ, f)).read())
+        for m in re.finditer(r"From\s+(VQP?)\s+Require\s+(?:Import|Export)?\s*([^.]*)\.", src):
+            d = "theories" if m.group(1) == "VQ" else "props"
+            for name in m.group(2).split():
+                todo.append(f"{d}/{name}.v")
+    return sorted(seen)
+
+
+def hygiene(files=None):
+    """No Admitted/admit/Axiom/Parameter/... in the given files and everything they import
+    (comments are stripped first).  Variables/Hypotheses are allowed only inside a Section."""
     bad = []
-    for d in ("theories", "props"):
-        for f in sorted(os.listdir(os.path.join(COQ, d))):
-            if not f.endswith(".v"):
-                continue
-            src = open(os.path.join(COQ, d, f)).read()
-            src = strip_comments(src)
-            depth = 0
-            for ln, line in enumerate(src.split("\n"), 1):
-                if re.match(r"\s*Section\b", line):
-                    depth += 1
-                if re.match(r"\s*End\b", line) and depth > 0:
-                    depth -= 1
-                for m in HYGIENE_RE.finditer(line):
-                    w = m.group(0)
-                    if w in ("Hypothesis", "Hypotheses", "Variable", "Variables") and depth > 0:
-                        continue
-                    bad.append(f"{d}/{f}:{ln}: {w}")
+    if files is None:
+        files = [f"{d}/{f}" for d in ("theories", "props") for f in sorted(os.listdir(os.path.join(COQ, d))) if f.endswith(".v")]
+    else:
+        files = deps_of(files)
+    for rel in files:
+        src = strip_comments(open(os.path.join(COQ, rel)).read())
+        depth = 0
+        for ln, line in enumerate(src.split("\n"), 1):
+            if re.match(r"\s*Section\b", line):
+                depth += 1
+            if re.match(r"\s*End\b", line) and depth > 0:
+                depth -= 1
+            for m in HYGIENE_RE.finditer(line):
+                w = m.group(0)
+                if w in ("Hypothesis", "Hypotheses", "Variable", "Variables") and depth > 0:
+                    continue
+                bad.append(f"{rel}:{ln}: {w}")
     return bad
 
 
@@ -190,13 +207,14 @@ class Ctx:
                        {"step": step, "detail": detail[-6000:]}, False)
 
     # ---------------- proofs ----------------
-    def prove(self, extra_props=()):
-        """Build the development and account the obligations of props/<ID>.v."""
-        bad = hygiene()
+    def prove(self, props=None):
+        """Build the development and account the obligations of props/<ID>.v (or of the
+        listed props files, e.g. props=["C18_arc", "C18_seq"])."""
+        files = [f"props/{p}.v" for p in (props or [self.pid])]
+        bad = hygiene(files)
         if bad:
             self.tooling_failure("hygiene", "forbidden vernacular: " + "; ".join(bad[:10]))
         rc, out = build_coq()
-        files = [f"props/{self.pid}.v"] + [f"props/{p}.v" for p in extra_props]
         n_thm = 0
         n_ok = 0
         axioms = set()
